@@ -7,6 +7,16 @@ VERIF = os.path.dirname(os.path.dirname(os.path.abspath(__file__)))
 
 # id -> (level, technique, level text, level note, design ref)
 CLAIMED = {
+    "C18": ("exploration",
+            "deterministic simulation: concurrent sender tasks under a seeded scheduler over a transport with partial writes, stalls, back-pressure and write errors; captured stream checked by an independent framer",
+            "2..6 sender tasks using every send API race for the write half while the simulated transport accepts partial writes, returns Pending between the pieces of one message, applies back-pressure and (separately) fails a write; the captured byte/fd stream must parse into exactly the sent messages, whole, fds at frame starts, per-sender order kept.",
+            "Interleaving granularity is the task poll plus the transport's own Pending points (incl. a seeded Pending right after a successful write); preemption inside async-lock is not explored.",
+            "DESIGN.md §3 C18"),
+    "C19": ("exploration",
+            "deterministic simulation: concurrent callers vs. a scripted peer that reorders, delays, duplicates and forges replies; EOF/reset/crash faults; timeouts on the discrete-event clock",
+            "1..5 caller tasks x 1..3 calls against a raw peer deciding per call return/error/never, delay, duplicates, stray replies and noise, with optional method timeout (simulated clock) and link faults at byte offsets / peer crash at a time; per call the oracle demands its own token back, or an error exactly when faults or timeouts justify one, and nothing pending at quiescence once the link died.",
+            "A reply that arrives 'before the caller waits' is produced by the seeded Pending-after-write transport behaviour and by task stalls, not by true parallelism.",
+            "DESIGN.md §3 C19"),
     "C16": ("exploration",
             "deterministic simulation: seeded + enumerated client transcripts x read splits against a SASL server reference model",
             "Client transcripts (random walks and, in the thorough tier, every sequence of <= 3 lines over a 22-symbol alphabet) x credentials x mechanism x read splits run against the real server handshake; replies and the authentication outcome are compared in lock-step with a reference server written from the spec's state table. Sampling plus bounded enumeration; no proof.",
